@@ -275,6 +275,7 @@ def showRet : Ret → String
   | .noResp => "noresp"
   | .ctxErr => "ctx"
   | .inUse => "inuse"
+  | .writeErr => "werr"
   | .crash => "crash"
 
 def showVec (n : Nat) (x : XState) : String :=
